@@ -18,6 +18,23 @@ def labels(rng, n, kind, order='inc', lo=None, off=0):
     return reorder(rng, base, order)
 
 
+def label_dtype(rng, lab, kind, p=0.1):
+    """None (int64 / float64) or, for 10 % of the numeric axes, a narrower / unsigned dtype that holds the labels exactly"""
+    if kind == 's' or not len(lab) or rng.random() >= p:
+        return None
+    lo, hi = min(lab), max(lab)
+    if kind == 'i':
+        cand = ['int32'] + (['int16'] if -2 ** 15 <= lo and hi < 2 ** 15 else []) + (['int8'] if -128 <= lo and hi < 128 else [])
+        if lo >= 0:
+            cand += (['uint8'] if hi < 256 else []) + (['uint16'] if hi < 2 ** 16 else []) + ['uint32', 'uint64']
+        if not (-2 ** 31 <= lo and hi < 2 ** 31):
+            return None
+        return rng.choice(cand)
+    if abs(lo) < 2 ** 20 and abs(hi) < 2 ** 20 and all(float(np.float32(v)) == v for v in lab):
+        return 'float32'
+    return None
+
+
 def reorder(rng, base, order):
     base = list(base)
     if order == 'dec':
@@ -39,11 +56,11 @@ def absent_label(rng, lab, kind, where=None):
     return rng.choice(cand)
 
 
-def np_labels(lab, kind):
+def np_labels(lab, kind, ldtype=None):
     if kind == 'i':
-        return np.array(lab, dtype=np.int64)
+        return np.array(lab, dtype=ldtype or np.int64)
     if kind == 'f':
-        return np.array(lab, dtype=np.float64)
+        return np.array(lab, dtype=ldtype or np.float64)
     a = np.empty(len(lab), dtype=object)
     for i, v in enumerate(lab):
         a[i] = v
@@ -83,7 +100,7 @@ def values(rng, shape, dtype='f', nan=0.0, lo=1, hi=4000):
 
 
 def spec(rng, ndim=None, dims=None, sizes=None, kinds=None, orders=None, dtype='f', nan=0.0,
-         minsize=1, maxsize=4, maxdim=4, mindim=0, pool=None, distinct_sizes=False):
+         minsize=1, maxsize=4, maxdim=4, mindim=0, pool=None, distinct_sizes=False, narrow=False):
     pool = pool or DIMS
     if dims is None:
         if ndim is None:
@@ -106,7 +123,7 @@ def spec(rng, ndim=None, dims=None, sizes=None, kinds=None, orders=None, dtype='
         orders = [orders] * n
     off = BIG if rng.random() < 0.12 else 0     # labels beyond 2**24: exact in 64-bit types only (dates written as integers)
     labs = [labels(rng, s, k, o, off=off) for s, k, o in zip(sizes, kinds, orders)]
-    return {"dims": dims, "labels": labs, "kinds": list(kinds),
+    return {"dims": dims, "labels": labs, "kinds": list(kinds), "ldtypes": [label_dtype(rng, l, k) if narrow else None for l, k in zip(labs, kinds)],
             "values": values(rng, tuple(sizes), dtype, nan),
             # history: 30 % of the arrays have had their axes' ordering queried (as an earlier align / a + b would do),
             # so that lookups run with the monotonicity cache populated
@@ -119,8 +136,9 @@ def build(sp, meta=True, as_list=False):
     da = boot.boot()
     axes = []
     try:
-        for d, lab, k in zip(sp["dims"], sp["labels"], sp["kinds"]):
-            ax = da.Axis(np_labels(lab, k), d)
+        lts = sp.get("ldtypes") or [None] * len(sp["dims"])
+        for d, lab, k, lt in zip(sp["dims"], sp["labels"], sp["kinds"], lts):
+            ax = da.Axis(np_labels(lab, k, lt), d)
             if meta:
                 ax._attrs.update(monitors.axis_sentinel(d))
             axes.append(ax)
